@@ -1,4 +1,5 @@
 import Driver.Proto
+import Driver.C18
 import Driver.C19
 import Driver.C21
 /-
@@ -9,6 +10,7 @@ open Driver
 
 def dispatch (fs : List String) : String :=
   match fs with
+  | "c18" :: rest => Driver.c18 rest
   | "c19" :: rest => Driver.c19 rest
   | "c21" :: rest => Driver.c21 rest
   | _ => "bad-op"
